@@ -588,3 +588,6 @@ V('filters-continue-on-unknown-word', 'depccg/parsing.py', "            if token
 V('xml-skips-falsy-fields', 'depccg/printer/xml.py', "            for k, v in token.items():\n                leaf_node.set(k, v)", "            for k, v in token.items():\n                if v:\n                    leaf_node.set(k, v)", ['C15'])
 V('x-leaf-test-or', PYX, "item.left == NULL and item.right == NULL", "item.left == NULL or item.right == NULL", ['C16', 'C02'])
 V('ja-inflection-tests-pos-list', 'depccg/printer/ja.py', "'-'.join(inflections) if len(inflections) else '_'", "'-'.join(inflections) if len(poss) else '_'", ['C20', 'C07'])
+# ---------------------------------------------------------------- rounds 12 and 13
+V('h-unary-guard-without-one-word-case', H, 'if (length == 1 || item->span_length != length)', 'if (item->span_length != length)', ['C01', 'C10'])
+V('h-unary-guard-stricter-is-licensed', H, 'if (length == 1 || item->span_length != length)', 'if (item->span_length != length)', ['C02'], expect='silent')
